@@ -4,6 +4,9 @@
 //!   h2v run                               execute the op script on stdin against the real code,
 //!                                         one answer line per op line on stdout
 mod codec;
+mod conn;
+mod conngen;
+mod dbg;
 mod gen_pure;
 mod pure;
 mod util;
@@ -19,7 +22,12 @@ fn main() {
             let cases: usize = args.get(4).and_then(|s| s.parse().ok()).unwrap_or(100);
             let out = std::io::stdout();
             let mut out = std::io::BufWriter::new(out.lock());
-            let ok = gen_pure::generate(profile, seed, cases, &mut out);
+            let ok = if profile.starts_with("conn-") {
+                let mut rng = util::Rng::new(seed);
+                conngen::generate(profile, &mut rng, cases, &mut out)
+            } else {
+                gen_pure::generate(profile, seed, cases, &mut out)
+            };
             if !ok {
                 eprintln!("unknown profile {}", profile);
                 std::process::exit(2);
@@ -33,6 +41,7 @@ fn main() {
             let mut pure = pure::Pure::new();
             let mut cod = codec::CodecH::new(16384);
             let mut rd_items: Vec<String> = vec![];
+            let mut cn = conn::ConnH::none();
             for line in stdin.lock().lines() {
                 let line = line.unwrap();
                 let t = line.trim();
@@ -48,6 +57,9 @@ fn main() {
                         // everything the real reader produced since `rd_new`, whatever the chunking was
                         let v: Vec<&str> = rd_items.iter().map(|s| s.as_str()).filter(|s| *s != "-" && *s != "dead").collect();
                         return Some(if v.is_empty() { "-".to_string() } else { v.join(" ;; ") });
+                    }
+                    if ws[0].starts_with("cn_") {
+                        return cn.handle(&ws);
                     }
                     let a = cod.handle(&ws)?;
                     if ws[0] == "rd_new" {
@@ -65,6 +77,23 @@ fn main() {
                 writeln!(out, "{}", ans).unwrap();
             }
             out.flush().unwrap();
+        }
+        Some("dump") => {
+            use std::future::Future;
+            let io = codec::Io::default();
+            let waker = codec::noop_waker();
+            let mut cx = std::task::Context::from_waker(&waker);
+            let mut hs = Box::pin(h2::client::Builder::new().handshake::<_, bytes::Bytes>(io.clone()));
+            let (mut sr, mut conn) = match hs.as_mut().poll(&mut cx) {
+                std::task::Poll::Ready(Ok(x)) => x,
+                _ => panic!(),
+            };
+            let req = http::Request::builder().method("POST").uri("http://a/b").body(()).unwrap();
+            let (_rf, mut ss) = sr.send_request(req, false).unwrap();
+            ss.reserve_capacity(100);
+            ss.send_data(bytes::Bytes::from(vec![0u8; 50]), false).unwrap();
+            let _ = std::pin::Pin::new(&mut conn).poll(&mut cx);
+            println!("{:#?}", conn);
         }
         _ => {
             eprintln!("usage: h2v gen <profile> <seed> <cases> | h2v run < ops");
